@@ -131,7 +131,8 @@ def run(case):
                 continue
             marg = {u: np.bincount(idx[:, pos[u]], weights=w, minlength=K) / Z for u in internal}
             nontriv = any(np.max(np.abs(marg[u] - prow[u] / prow[u].sum())) > 1e-3 for u in internal)
-            ts = tsspace.add_mutations(ts0, vec)
+            # 0, 1 or 2 extra mutations above the root: they lie on no edge and must not enter the model
+            ts = tsspace.add_mutations(ts0, vec, above_root=(sum(vec) + len(vec)) % 3)
             for space in ("linear", "logarithmic"):
                 for std in ((True, False) if eps == 1e-6 else (True,)):
                     evals += 1
